@@ -749,7 +749,9 @@ def _strip_volatile(case):
 
 def _ext_or_bio(obs):
     q = obs["post"]
-    return obs["act"] in EXT or (q["bio"] and q["metab"] == "none" and not q["effect"])
+    # first request: any of B / M / X; deeper: only the pure PK + bioavailability states (metabolite x effect
+    # combinations are left to the thorough tier)
+    return (obs["act"] in EXT and not obs["hist"]) or (q["bio"] and q["metab"] == "none" and not q["effect"])
 
 
 def walk(v, book, start, svec, acts, depth, table, rng, expand_if=None, max_states=None):
